@@ -61,9 +61,11 @@ def main():
     violations = []      # (replay path, no_input flag, text)
     known_lines = []
     known = C.load_known_findings()
-    C.import_qubovert()
 
     with C.Scratch() as scratch:
+        if hasattr(mod, "pre_import"):
+            mod.pre_import(scratch)      # e.g. rebuild the C extension from the working tree and install it
+        C.import_qubovert()
         # ---- 1. proofs -------------------------------------------------------
         ok, out = C.coq_build(log)
         proof_ok, theorems, assumptions, pout = (False, [], {}, out)
@@ -219,8 +221,11 @@ def replay(prop, mod, path):
     if c is None:
         print("replay names a proof/correspondence failure, re-run: ./check %s quick" % prop)
         return 2
-    C.import_qubovert()
-    o, v = run_one(mod, c)
+    with C.Scratch() as scratch0:
+        if hasattr(mod, "pre_import"):
+            mod.pre_import(scratch0)
+        C.import_qubovert()
+        o, v = run_one(mod, c)
     with C.Scratch() as scratch:
         C.coq_build([])
         lit = mod.literal(c, o)
